@@ -170,6 +170,11 @@ static void EV_start_trigger(struct stop_when_op* self) {
   if (ALL_STARTED) vf_die();
 }
 /* stopSource_.request_stop(): children observe the request; they may complete synchronously inside */
+/* stopSource_.stop_requested(): true once anybody asked the children to stop (this call or another party) */
+static _Bool EV_children_stop_requested(struct stop_when_op* self) {
+  VF_P(!G.dead, "stopSource_.stop_requested(): " DEAD_MSG);
+  return G.stopped_children > 0 ? 1 : VF_nondet_bool();
+}
 static void EV_stop_children(struct stop_when_op* self) {
   VF_P(!G.dead, "stopSource_.request_stop(): " DEAD_MSG);
   VF_P(G.mine == 1, "C04: the children are told to stop while the caller pins the operation with a unit it owns (not after giving it up)");
